@@ -509,6 +509,43 @@ def check_pulses(rep, prog, m):
         rep.ob('R-PURE', tag + ' documentation', bool(re.search(r'in[- ]?place', doc, re.I)), 'docstring states the in-place update', rel, fn.lineno, what='documented as in-place')
     if n_p != 14:
         raise AnalysisError('expected 14 pulse functions, found %d' % n_p)
+    check_pulse_paths(rep, prog, m)
+
+
+def check_pulse_paths(rep, prog, m):
+    """no path of a pulse function leaves phi untouched while some proportion is non-zero: abstract execution with every proportion
+    either the constant 0 or a non-zero symbol (a shortcut for 'nothing is admixed' must test that ALL proportions vanish)"""
+    import itertools
+    from sa import miniexec as mx
+    rel = m.rel
+    for q, fn in sorted(m.funcs.items()):
+        mm = re.fullmatch(r'phi_(\d)D_admix_(?:.*_)?into_(\d)', q)
+        if not mm:
+            continue
+        D = int(mm.group(1))
+        params = positional_params(fn)
+        fs = params[1:D]
+        bad, n_paths = [], 0
+        try:
+            for combo in itertools.product((0, 1), repeat=len(fs)):
+                it = _interp(prog, m, symbolic_loops=True)
+                args = {p_: mx.Sym(p_) for p_ in params}
+                for f_, nz in zip(fs, combo):
+                    args[f_] = mx.Sym(f_, truth=True) if nz else 0
+                for outcome, events, _dec in it.run(fn, args):
+                    if outcome[0] != 'return':
+                        continue
+                    n_paths += 1
+                    touched = any((e[0] == 'setitem' and mx.show(e[4]) == 'phi') or (e[0] == 'augitem' and mx.show(e[1]) == 'phi') for e in events)
+                    if mx.show(outcome[1]) != 'phi' and not mx.show(outcome[1]).startswith('phi'):
+                        bad.append('returns %s' % mx.show(outcome[1])[:40])
+                    if any(combo) and not touched:
+                        bad.append('with %s phi is returned untouched' % ', '.join('%s %s 0' % (f_, '!=' if nz else '==') for f_, nz in zip(fs, combo)))
+        except mx.Undecidable as e:
+            rep.ob('R-PATH', '%s paths' % q, False, '%s is not recognised: %s' % (q, e), rel, fn.lineno, what='every path with a non-zero proportion deposits into phi')
+            continue
+        rep.ob('R-PATH', '%s paths' % q, not bad, '; '.join(sorted(set(bad))[:2]) if bad else '%d paths over zero / non-zero proportions: phi is updated whenever a proportion is non-zero' % n_paths, rel, fn.lineno,
+               what='every path with a non-zero proportion deposits into phi (a shortcut may only skip the case in which all proportions are 0)')
 
 
 def check_reorder(rep, prog, m):
